@@ -374,7 +374,13 @@ def verify_spec(spec, repo=None, crosscheck=True):
                 ref["model"] = _model_text(model)
                 if inputs is not None:
                     ref["inputs"] = inputs
-                    ok, why = check_concrete(spec, inputs)
+                    try:
+                        ok, why = check_concrete(spec, inputs)
+                    except SkipInput:
+                        # the model's input does not reach the contract on the real function (e.g. outside a slice,
+                        # or the precondition is established differently there): no replayable input
+                        ok, why = True, "the counter-model's input is outside what the concrete harness can construct"
+                        ref["inputs"] = None
                     ref["confirmed"] = not ok
                     ref["observed"] = why
             rep.refutations.append(ref)
